@@ -278,6 +278,11 @@ def template_programs():
         Let("q", Spawn("nothing", I(1))), Expr(MCall(V("q"), "join")), Print(S("after")),
         Let("hs", List(Spawn("sq", I(2)), Spawn("sq", I(3)))), For("x", V("hs"), Block([Print(MCall(V("x"), "join"))])),
         Print(Call("both", I(4))), Let("n", I(5)), Let("late", Spawn("sq", V("n"))), Expr(Asg(V("n"), I(6))), Print(MCall(V("late"), "join"), V("n"))]))))
+    # the builtin `throw` is a name like any other: it can be taken as a value and hidden by a variable
+    add("throw_as_value_and_hidden", {"main": Fn([], Block([
+        Let("t", V("throw")), Expr(Try(Block([Expr(CallV(V("t"), S("x"))), Print(S("not reached"))]), "e", Block([Print(S("caught"), Mem(V("e"), "message"))]))),
+        Expr(Block([Let("throw", FnLit(["s"], Block([], Bin("+", V("s"), S("!"))), "str", ["str"])), Print(Call("throw", S("kept")))])),
+        Expr(Try(Block([Expr(Call("throw", S("real")))]), "e", Block([Print(S("caught"), Mem(V("e"), "message"))]))), Print(S("end"))]))})
     # shadowing in nested blocks
     add("shadow", main(Let("x", I(1)), Expr(Block([Let("x", I(2)), Print(V("x")),
                                                   Expr(Block([Let("x", I(3)), Print(V("x"))])), Print(V("x"))])),
